@@ -269,6 +269,91 @@ fn run_episode(ep: &Value, epno: usize, cache: &mut HashMap<String, Vocab>, tr: 
         }
         mains.push(e);
     }
+    // tokenisation probes (C19): plain text vs marker forms
+    for pr in ep["tok_probes"].as_array().unwrap_or(&vec![]) {
+        let b = vh::json_bytes(&pr["b"]);
+        let env = s.cfgs[0].env.clone();
+        if pr["want"].is_null() {
+            let toks = env.tokenize_bytes(&b);
+            s.tr.ev(json!({"ev":"Tokenize","c":0,"b":vh::bytes_json(&b),"toks":u32s_json(&toks)}));
+        } else {
+            let (toks, nfixed) = env.tokenize_bytes_marker(&b);
+            s.tr.ev(json!({"ev":"TokenizeMarker","c":0,"b":vh::bytes_json(&b),"toks":u32s_json(&toks),"nfixed":nfixed,
+                           "want":pr["want"]}));
+        }
+    }
+    // scripted episode (targeted histories, and behaviours generated by TLC): a list of operations on
+    // engine 1; "fresh" builds engine 50 from scratch, replays the surviving history and observes
+    if let Some(script) = ep["script"].as_array() {
+        let mut hist: Vec<u32> = vec![];
+        for op in script {
+            let name = op[0].as_str().unwrap_or("");
+            let arg = op[1].as_u64().unwrap_or(0);
+            if s.m(1).is_error() && name != "fresh" {
+                break;
+            }
+            match name {
+                "mask" => {
+                    s.mask(1);
+                }
+                "acc" => {
+                    s.acc(1);
+                }
+                "ffb" => {
+                    s.ff_bytes(1);
+                }
+                "fft" => {
+                    s.ff_tokens(1);
+                }
+                "inval" => s.invalidate(1),
+                "validate_all" => {
+                    s.validate_all(1);
+                }
+                "status" => s.status(1),
+                "consume" => {
+                    if s.consume(1, arg as u32) {
+                        hist.push(arg as u32);
+                    }
+                }
+                // the n-th allowed token (by a side clone's mask), n taken modulo the mask size
+                "consume_nth" => {
+                    let mut side = s.side_clone(1);
+                    let ids = side.compute_mask().map(|m| mask_ids(&m)).unwrap_or_default();
+                    if !ids.is_empty() {
+                        let t = ids[arg as usize % ids.len()];
+                        if s.consume(1, t) {
+                            hist.push(t);
+                        }
+                    }
+                }
+                "rollback" => {
+                    if s.rollback(1, arg as usize) && arg as usize <= hist.len() {
+                        hist.truncate(hist.len() - arg as usize);
+                    }
+                }
+                "reset" => {
+                    if s.reset(1) {
+                        hist.clear();
+                    }
+                }
+                "fresh" => {
+                    s.new_engine(50, 0);
+                    for &t in &hist.clone() {
+                        s.consume(50, t);
+                    }
+                    if !s.m(50).is_stopped() {
+                        s.mask(50);
+                    }
+                    s.acc(50);
+                    s.ff_bytes(50);
+                    s.drop_engine(50);
+                }
+                _ => {}
+            }
+        }
+        return json!({"compiled":1,"events":s.nev,"commits":hist.len(),"rollbacks":0,"len":hist.len(),"stopped":0,
+            "error": s.m(1).is_error() as u32});
+    }
     let mut hist: Vec<u32> = vec![];
     let mut shadows: Vec<u32> = vec![];
     let mut next_shadow = 50u32;
